@@ -29,9 +29,15 @@ def gen_cases(rng, tier):
             na, nb = 1, 1
         nn, sz = na + nb, na - nb
         keys = [(nn, sz)]
-        cls = rng.choice(['restricted', 'restricted', 'sso'])
+        cls = rng.choice(['restricted', 'restricted', 'sso', 'sparse'])
         rank = rng.randint(1, 2)
-        ham = c01.gen_ham(rng, cls, rank, norb, 'sparse', rng.random() < 0.5, True)
+        if cls == 'sparse':
+            # multi-term SparseHamiltonian (not a single term + h.c.): the Taylor route of time_evolve
+            terms = c01.gen_fop_terms(rng, norb, number_breaking=False, nterms=rng.randint(2, 3))
+            terms = [[ops, re // 24, im // 24] for ops, re, im in terms if c01._sz_conserving(ops)]
+            ham = {'cls': 'sparse', 'rank': 0, 'entries': terms, 'e0': [0, 0], 'real': False}
+        else:
+            ham = c01.gen_ham(rng, cls, rank, norb, 'sparse', rng.random() < 0.5, True)
         if cls == 'sso':
             ham['entries'] = c01.pair_symmetrise(c01._sso_filter(ham['entries'], norb))
         if not ham['entries']:
@@ -49,7 +55,9 @@ def gen_cases(rng, tier):
                       'acc': rng.choice([1e-4, 1e-7, 1e-10, 1e-13, 1e-15]),
                       'expansion': rng.choice([2, 3, 5, 10, 20, 30, 60]),
                       'algo': rng.choice(['taylor', 'taylor', 'chebyshev']),
-                      'bounds': rng.choice(['enclosing', 'enclosing', 'tight'])})
+                      'bounds': rng.choice(['enclosing', 'enclosing', 'tight']),
+                      # the same Hamiltonian OBJECT used before the propagation (measuring the energy, applying it)
+                      'warm': rng.choice([None, None, 'apply', 'expect'])})
     # long-time unitarity of the exact routes
     for k in range(12 if tier == 'quick' else 60):
         norb = rng.randint(2, 3)
@@ -73,6 +81,10 @@ def run_impl(case, mode):
         if case['algo'] == 'chebyshev':
             L = case['L1'] * (1.0 if case['bounds'] == 'tight' else 1.5) + 0.5
             kw['spec_lim'] = [-L, L]
+        if case.get('warm') == 'apply':
+            wfn.apply(ham)
+        elif case.get('warm') == 'expect':
+            wfn.expectationValue(ham)
         try:
             out = wfn.apply_generated_unitary(case['t'], case['algo'], ham, accuracy=case['acc'],
                                               expansion=case['expansion'], **kw)
